@@ -347,6 +347,19 @@ Definition chk_privop (c : PrivT) : bool :=
   | Ok (c', (b', u')) => (c' =? wc) && (b' =? wb) && (u' =? wu)
   | Err _ => false
   end.
+Definition HistT := (Z * Z * Z * Z * list Z * list (Z * Z) * (Z * Z * Z) * (Z * Z * Z) * (Z * Z * Z * Z)
+                     * list Z * (Z * Z))%type.
+Definition chk_history (c : HistT) : bool :=
+  let '(n, e, b, u, ms, ht, g, iv, pw, want, wst) := c in
+  let '(g1, g2, gv) := g in let '(i1, i2, ivv) := iv in let '(p1, p2, p3, pv) := pw in
+  match run_ops (raw_lookup ht)
+          (fun a b0 => if (a =? g1) && (b0 =? g2) then gv else -1)
+          (fun a b0 => if (a =? i1) && (b0 =? i2) then ivv else -1)
+          (fun a b0 c0 => if (a =? p1) && (b0 =? p2) && (c0 =? p3) then pv else -1)
+          n e (b, u) ms with
+  | Ok (rs, (b', u')) => list_eqb rs want && (b' =? fst wst) && (u' =? snd wst)
+  | Err _ => false
+  end.
 Definition KexT := (option (list Z) * list Z * (Z * Z) * (Z * Z) * option (option (list Z)) * Z)%type.
 Definition chk_kex (c : KexT) : bool :=
   let '(r, rnd, cv, sv, impl, code) := c in
@@ -355,7 +368,8 @@ Definition chk_kex_spec (c : KexT) : bool :=
   let '(r, rnd, cv, sv, impl, code) := c in
   match impl with Some (Some x) => list_eqb (kex_spec cv sv r rnd) x | _ => false end.
 '''
-IMPORTS = ['Base.C11_Lib', 'Gen.C11_RsaDecrypt', 'Gen.C11_RsaKex', 'Gen.C11_RsaPrivOp', 'Spec.C11_Pkcs1Dec', 'Model.C11_ServerTail']
+IMPORTS = ['Base.C11_Lib', 'Gen.C11_RsaDecrypt', 'Gen.C11_RsaKex', 'Gen.C11_RsaPrivOp', 'Spec.C11_Pkcs1Dec', 'Model.C11_ServerTail',
+           'Proofs.C11_PrivOp']
 
 
 # --------------------------------------------------------------------------- decrypt cases
@@ -762,6 +776,149 @@ def privop_cases(ctx, quick):
     return lits, meta
 
 
+# --------------------------------------------------------------------------- long histories of ONE key object
+KEY_ATTRS = {'n', 'e', 'd', 'p', 'q', 'dP', 'dQ', 'qInv', 'blinder', 'unblinder', '_lock', 'key_type', '_key_hash'}
+
+
+def state_vector_obligation(ctx):
+    """every attribute of a key object is one the models know (n, e, d, CRT values, the blinding pair, the lock,
+    key_type, _key_hash): a new attribute is new object state the theorems say nothing about -> broken tie"""
+    import c11_conc
+    key = c11_conc.fresh_key(get_key(512))
+    k = kbytes(key.n)
+    seen = set(vars(key))
+    key.decrypt(bytearray(enc_em(key, pkcs(ctx.rng, k, b'x'))))
+    key.hashAndSign(bytearray(b'abc'))
+    seen |= set(vars(key))
+    extra = sorted(seen - KEY_ATTRS)
+    if extra:
+        return 'Python_RSAKey objects carry attribute(s) %s that no C11 model knows (object state outside the theorems)' % extra
+    return None
+
+
+def history_plan(i, offset):
+    return ('valid', 'invalid', 'sign', 'valid')[(i + 1 + offset) % 4]
+
+
+def history_stage(ctx, quick):
+    """several hundred private-key operations on ONE key object (cold start): validly padded ciphertexts, invalid
+    ones and signatures interleaved; every decrypt must equal the property oracle, every signature must verify
+    (public operation), whatever the position in the history.  Returns (found, tie message or None)."""
+    import c11_conc
+    rng = ctx.rng
+    found, tie = False, None
+    plans = [(512, 600, 0)] if quick else [(512, 1100, 0), (512, 600, 1), (512, 600, 2), (96, 600, 0), (1096, 300, 3), ('pem', 300, 0)]
+    for name, nops, offset in plans:
+        src = get_key(name)
+        key = c11_conc.fresh_key(src)
+        n, d, k = int(key.n), int(key.d), kbytes(key.n)
+        room = k - 11
+        prev = None
+        for i in range(nops):
+            cls = history_plan(i, offset)
+            if cls == 'sign' and k < 62:
+                cls = 'valid'                      # a SHA-1 DigestInfo does not fit the tiny keys
+            if cls == 'valid':
+                msg = bytes(rng.randrange(256) for _ in range(rng.randrange(0, room + 1)))
+                em = pkcs(rng, k, msg)
+            elif cls == 'invalid':
+                em = b'\x00\x02' + nz(rng, k - 2) if i % 8 < 4 else b'\x00\x01' + nz(rng, k - 3) + b'\x00'
+            b0, u0 = int(key.blinder), int(key.unblinder)
+            if cls == 'sign':
+                data = bytes(rng.randrange(256) for _ in range(16))
+                try:
+                    sig = key.hashAndSign(bytearray(data))
+                    ok = bool(key.hashAndVerify(sig, bytearray(data)))
+                    got = 'signature verifies' if ok else 'signature does NOT verify'
+                except Exception as e:  # noqa
+                    ok, got = False, 'EXC:%s:%s' % (type(e).__name__, e)
+                want = 'signature verifies'
+                ct = data
+            else:
+                ct = enc_em(key, em)
+                want = o_decrypt(n, d, ct, em)
+                try:
+                    r = key.decrypt(bytearray(ct))
+                    got = None if r is None else bytes(r)
+                except Exception as e:  # noqa
+                    got = 'EXC:%s:%s' % (type(e).__name__, e)
+                ok = got == want
+            ctx.count('decrypt-long-history', 1, [(name, offset, cls, min(i // 64, 20))])
+            if not ok:
+                found = True
+                fmt = lambda x: x.hex() if isinstance(x, (bytes, bytearray)) else repr(x)
+                ctx.violation('decrypt-history:%s' % cls,
+                              'private-key operation #%d on ONE %s-bit key object (history: %d operations before it, pattern '
+                              'valid/invalid/sign interleaved, cold start): %s gives %s instead of %s -- the result depends on '
+                              'the history of the key object, not only on key and input'
+                              % (i + 1, name, i, {'valid': 'a validly padded ciphertext', 'invalid': 'an invalidly padded ciphertext',
+                                                  'sign': 'hashAndSign'}[cls], fmt(got), fmt(want)),
+                              dict(kind='history', rsa_key=str(name), nops=i + 1, offset=offset, cls=cls, input=ct.hex(),
+                                   how='harness/props/C11.py replay: repeats the deterministic history up to this operation'))
+                break
+            # the state law of the model (tie, not property): the pair is squared by every operation
+            b1, u1 = int(key.blinder), int(key.unblinder)
+            if b0 != 0 and (b1, u1) != (b0 * b0 % n, u0 * u0 % n) and tie is None:
+                tie = ('blinding pair after operation #%d on a %s-bit key object is not the square of the pair before it '
+                       '(model: Proofs/C11_PrivOp.next_pair)' % (i + 1, name))
+    return found, tie
+
+
+def history_model_cases(ctx, quick):
+    """run_ops (generated _rawPrivateKeyOp iterated) against consecutive real private operations of one object:
+    results and the final blinding pair; also the closed form (b^(2^k), u^(2^k)) mod n"""
+    import tlslite.utils.python_rsakey as prk
+    import c11_conc
+    lits, meta, tie = [], [], None
+    for name, steps in ([(96, 40), (512, 24)] if quick else [(88, 60), (96, 300), (512, 80), (1096, 30)]):
+        key = c11_conc.fresh_key(get_key(name))
+        n, e = int(key.n), int(key.e)
+        for phase in ('cold', 'warm'):
+            rec = {'h': {}, 'g': (-2, -2, -2), 'i': (-2, -2, -2), 'p': (-2, -2, -2, -2)}
+            orig = (prk.getRandomNumber, prk.invMod, prk.powMod)
+
+            def grn(a, b):
+                v = orig[0](a, b)
+                rec['g'] = (int(a), int(b), int(v))
+                return v
+
+            def inv(a, b):
+                v = orig[1](a, b)
+                rec['i'] = (int(a), int(b), int(v))
+                return v
+
+            def pw(a, b, c):
+                v = orig[2](a, b, c)
+                rec['p'] = (int(a), int(b), int(c), int(v))
+                return v
+
+            def helper(x, _k=key):
+                v = type(_k)._rawPrivateKeyOpHelper(_k, x)
+                rec['h'][int(x)] = int(v)
+                return v
+            b0, u0 = int(key.blinder), int(key.unblinder)
+            ms = [ctx.rng.randrange(0, n) for _ in range(steps)]
+            prk.getRandomNumber, prk.invMod, prk.powMod = grn, inv, pw
+            key._rawPrivateKeyOpHelper = helper
+            try:
+                rs = [int(key._rawPrivateKeyOp(m)) for m in ms]
+            finally:
+                prk.getRandomNumber, prk.invMod, prk.powMod = orig
+                del key._rawPrivateKeyOpHelper
+            b1, u1 = int(key.blinder), int(key.unblinder)
+            if b0 != 0 and (b1, u1) != (pow(b0, 2 ** steps, n), pow(u0, 2 ** steps, n)) and tie is None:
+                tie = 'after %d operations the blinding pair of a %s-bit key is not (b^(2^k), u^(2^k)) mod n' % (steps, name)
+            h = hexlit
+            lits.append('(%s, %s, %s, %s, [%s], [%s], (%s,%s,%s), (%s,%s,%s), (%s,%s,%s,%s), [%s], (%s,%s))' % (
+                h(n), h(e), h(b0), h(u0), ';'.join(h(m) for m in ms),
+                ';'.join('(%s,%s)' % (h(a), h(b)) for a, b in rec['h'].items()),
+                h(rec['g'][0]), h(rec['g'][1]), h(rec['g'][2]), h(rec['i'][0]), h(rec['i'][1]), h(rec['i'][2]),
+                h(rec['p'][0]), h(rec['p'][1]), h(rec['p'][2]), h(rec['p'][3]),
+                ';'.join(h(r) for r in rs), h(b1), h(u1)))
+            meta.append((name, phase, steps))
+    return lits, meta, tie
+
+
 # --------------------------------------------------------------------------- determinism under concurrency
 def conc_stage(ctx, quick):
     """Forced interleavings of 2-3 decrypt() calls on one key object.  Returns True if a violation was reported."""
@@ -850,7 +1007,14 @@ def run(ctx):
     ctx.violation = violation_once
     tie_broken = None
     for u in ('ConstantTime', 'C11_RsaDecrypt', 'C11_RsaKex', 'C11_RsaPrivOp'):
-        ok, msg = units.generate(u, vlib.COQ)
+        try:
+            ok, msg = units.generate(u, vlib.COQ)
+        except Exception as e:  # noqa  (a translator crash is a broken tie, never the end of the check)
+            ok, msg = False, 'translator crashed on %s: %s: %s' % (u, type(e).__name__, e)
+            try:
+                os.unlink(os.path.join(vlib.COQ, 'Gen', u + '.v'))
+            except OSError:
+                pass
         ctx.log('translator: %s' % msg)
         if not ok:
             tie_broken = tie_broken or msg
@@ -953,14 +1117,22 @@ def run(ctx):
     cfound, ccases, cimpls = construction_stage(ctx, quick)
     found = found or cfound
     ctx.log('construction paths: %d decrypts' % len(ccases))
+    # long histories of one key object; object state vector
+    hfound, htie = history_stage(ctx, quick)
+    found = found or hfound
+    tie_broken = tie_broken or htie or state_vector_obligation(ctx)
+    ctx.log('history stage done')
     # determinism of decrypt when one key object is shared by threads (forced schedules)
     if conc_stage(ctx, quick):
         found = True
     ctx.log('concurrency stage done')
     # ---------------- generated models and Coq spec on the same cases
     if res['model_ok'] and tie_broken is None:
-        allc = cases + forced_cases + ccases
-        alli = impls + forced_impls + cimpls
+        # quick: one representative ciphertext class per construction path goes through Coq (all of them went
+        # through the direct oracle above); thorough: all
+        keep = [i for i, c in enumerate(ccases) if not quick or c['cls'].endswith(':no-separator')]
+        allc = cases + forced_cases + [ccases[i] for i in keep]
+        alli = impls + forced_impls + [cimpls[i] for i in keep]
         lits = [decrypt_lit(key_of(c), c['ct'], i) for c, i in zip(allc, alli)]
         (bad_model, bad_spec), errs = robust_bad_indices(
             'C11', IMPORTS, 'CaseT', ['chk_model', 'chk_spec'], lits,
@@ -999,6 +1171,15 @@ def run(ctx):
             tie_broken = 'private-operation evaluation failed: ' + e[:400]
         for i in badp[:3]:
             tie_broken = 'generated rawPrivateKeyOp disagrees with Python_RSAKey._rawPrivateKeyOp (%s, %s)' % pm[i]
+        if 'C11_RsaPrivOp' not in (tie_broken or ''):
+            hl2, hm2, htie2 = history_model_cases(ctx, quick)
+            tie_broken = tie_broken or htie2
+            badhh, errs = robust_bad_indices('C11s', IMPORTS, 'HistT', 'chk_history', hl2, shard=1, preamble=PREAMBLE)
+            ctx.count('privop-history-model-vs-impl(vm_compute)', sum(m[2] for m in hm2), [m for m in hm2])
+            for e in errs:
+                tie_broken = 'private-operation history evaluation failed: ' + e[:400]
+            for i in badhh[:3]:
+                tie_broken = 'run_ops (generated _rawPrivateKeyOp iterated) disagrees with %d consecutive real operations (%s, %s)' % (hm2[i][2], hm2[i][0], hm2[i][1])
         hl, hm = helper_cases(ctx, quick)
         badh, errs = robust_bad_indices('C11h', IMPORTS, 'bool', '(fun b : bool => b)', hl, shard=24, preamble=PREAMBLE)
         ctx.count('lib-helpers-model-vs-impl', len(hl), [(m[0],) for m in hm])
@@ -1058,6 +1239,24 @@ def replay(ctx, path):
         print('expected:', r['expect'])
         print('probes  :', gp, 'expected', r['want_probes'])
         return 0 if (all(got.get(t) == v for t, v in r['expect'].items() if t in got) and gp == r['want_probes']) else 1
+    if r.get('kind') == 'history':
+        name = r['rsa_key'] if r['rsa_key'] == 'pem' else int(r['rsa_key'])
+        # the history is a deterministic function of the seed: re-run the stage restricted to this plan
+        import c11_conc
+        key = c11_conc.fresh_key(get_key(name))
+        n, d, k = int(key.n), int(key.d), kbytes(key.n)
+        rng = ctx.rng
+        bad = None
+        for i in range(int(r['nops']) + 300):
+            msg = bytes(rng.randrange(256) for _ in range(rng.randrange(0, k - 10)))
+            ct = enc_em(key, pkcs(rng, k, msg))
+            got = key.decrypt(bytearray(ct))
+            if got is None or bytes(got) != msg:
+                bad = (i + 1, msg.hex(), None if got is None else bytes(got).hex())
+                break
+        print('first wrong decryption of a validly padded ciphertext in %d consecutive operations on one key object: %r'
+              % (int(r['nops']) + 300, bad))
+        return 0 if bad is None else 1
     if r.get('kind') == 'kex':
         c = r['case']
         c2 = dict(cls=c['cls'], r=None if c['r'] is None else bytes.fromhex(c['r']), rnd=bytes.fromhex(c['rnd']),
